@@ -893,6 +893,18 @@ class Engine:
 
     def _remove_deleted_processes(self) -> None:
         '''Remove deleted processes from the front.'''
+        for path, progress in self.front.items():
+            if path not in self.process_paths and progress['update']:
+                # This update will never be applied. Collect it anyway
+                # so that the process, which lives on under another
+                # path after a move, has no command pending.
+                process = progress['update'][0].defer
+                if process is not None:
+                    try:
+                        process.get_command_result()
+                    except RuntimeError:
+                        # No command is pending (any more).
+                        pass
         self.front = {
             path: progress
             for path, progress in self.front.items()
